@@ -17,6 +17,23 @@ func (s *monitorContext) GetKey(key string) string {
 	return ""
 }
 
+// IsStaticProbe marks this context as the probe of EvalStaticStage
+func (s *monitorContext) IsStaticProbe() bool {
+	return true
+}
+
+// StaticProbe is implemented by contexts that can be (a sub-context of) the static-analysis probe
+type StaticProbe interface {
+	IsStaticProbe() bool
+}
+
+// IsStaticProbe reports whether the context only exists to analyse a stage (EvalStaticStage).
+// Stages that learn from the values they see must not learn from a probe
+func IsStaticProbe(context KeyBuilderContext) bool {
+	p, ok := context.(StaticProbe)
+	return ok && p.IsStaticProbe()
+}
+
 func EvalStaticStage(stage KeyBuilderStage) (ret string, ok bool) {
 	var monitor monitorContext
 	ret = stage(&monitor)
